@@ -57,3 +57,41 @@ extern "C" void c09_put_scalar_into_2dim()
   Value& el = outer->at(0);
   verif_assert(outer->size() == 1 && el.type() == Type(Type::INTEGER, 0, 1) && !el.isNull() && el.collection() == inner, "C09: every element of a [[integer]] table is still an [integer] table after the call");
 }
+
+// C05-K4: t.put(p, x) copies x when x is a variable (lvalue), whatever the receiver is - a variable or a temporary table: the argument is
+// never emptied; the element receives the value; a temporary argument may be moved. Receiver / argument provenance are instance
+// parameters (VX_RECV_LVAL, VX_ARG_LVAL: with symbolic flags the solver runs out of memory on the table update), the payload is symbolic.
+#ifndef VX_RECV_LVAL
+#define VX_RECV_LVAL 0
+#endif
+#ifndef VX_ARG_LVAL
+#define VX_ARG_LVAL 1
+#endif
+extern "C" void c05_put_copy()
+{
+  static Context& ctx = *new Context(1, 2);
+  Collection* tab = new Collection(Type(Type::INTEGER, 0, 1)); tab->reserve(2);
+  tab->push_back(Value(Integer(1))); tab->push_back(Value(Integer(2))); tab->at(0).to_lvalue(true); tab->at(1).to_lvalue(true);
+  Value* recv = new Value(tab); recv->to_lvalue(VX_RECV_LVAL != 0);
+#ifndef VX_POS
+#define VX_POS 1
+#endif
+  long xi = in_long(0);
+  Value* x = new Value(Integer(xi)); x->to_lvalue(VX_ARG_LVAL != 0);
+  const int p = VX_POS;      /* instance parameter */
+  Value* pv = new Value(Integer(p));
+  SymExpr* e0 = new SymExpr(recv); SymExpr* e1 = new SymExpr(pv); SymExpr* e2 = new SymExpr(x);
+  std::vector<Expression*> margs(2); margs[0] = e1; margs[1] = e2;
+  MemberPUTExpression* m = new MemberPUTExpression(e0, std::move(margs));
+  bool thrown = false; Value* r = nullptr;
+  try { r = &m->value(ctx); } catch (RuntimeError&) { thrown = true; } catch (...) { verif_assert(false, "C01: only RuntimeError may leave put()"); return; }
+  VX_WITNESS();
+  verif_assert(!thrown && r != nullptr, "C09: put of an integer at a valid position of an integer table succeeds");
+  if (thrown || !r) return;
+  verif_assert(!r->isNull() && r->type() == Type(Type::INTEGER, 0, 1) && r->collection()->size() == 2, "C09: put keeps the table's type and length");
+  Value& el = r->collection()->at(p);
+  verif_assert(!el.isNull() && el.type() == Value::type_integer && *el.integer() == xi, "C09: the element at the position holds the value");
+  Value& other = r->collection()->at(1 - p);
+  verif_assert(!other.isNull() && *other.integer() == (p == 0 ? 2 : 1), "C09: the other element is untouched");
+  if (VX_ARG_LVAL) verif_assert(!x->isNull() && x->type() == Value::type_integer && *x->integer() == xi && x->lvalue(), "C05: a variable put into a table - also into a temporary one - keeps its value (put copies it)");
+}
